@@ -583,9 +583,27 @@ def op_add_reactions(E, m, S):
 
 def op_remove_reactions(E, m, S):
     r = _rxn(E, m, pool=("R1", "DM_B", "R3"))
-    arg = E.pick(S.tag("arg"), ["object", "id", "unknown"])
+    arg = E.pick(S.tag("arg"), ["object", "id", "unknown", "two-in-one-call"])
     orphans = E.flag(S.tag("remove_orphans"))
     via = E.pick(S.tag("via"), ["model", "remove_from_model"])
+    if arg == "two-in-one-call":
+        # one call removing two reactions (the chosen one first, then another one with its own genes / objective share)
+        others = [x for x in m.reactions if x is not r and x.id in ("DM_B", "R2", "R1")]
+        if not others:
+            return
+        o = others[0]
+
+        def ref2(R, i=r.id, j=o.id):
+            R.remove_reaction(i, orphans)
+            R.remove_reaction(j, orphans)
+        _try(S, "remove_reactions", lambda: m.remove_reactions([r, o.id], remove_orphans=orphans), r=r.id, other=o.id, arg=arg,
+             orphans=orphans, ref=ref2)
+        for x in (r, o):
+            if x.id not in m.reactions:
+                S.detached = getattr(S, "detached", []) + [x]
+                if not m._contexts:
+                    S.removed = getattr(S, "removed", []) + [x]
+        return
     if via == "remove_from_model":
         _try(S, "Reaction.remove_from_model", lambda: r.remove_from_model(remove_orphans=orphans), r=r.id, orphans=orphans,
              ref=lambda R, i=r.id: R.remove_reaction(i, orphans))
